@@ -24,7 +24,7 @@ ASSUMPTIONS = [
     'liveness checked as bounded-time safety on the virtual clock',
 ]
 BUDGET = {
-    'quick': {'examples': 150, 'seconds': 70},
+    'quick': {'examples': 300, 'seconds': 90},
     'thorough': {'examples': 700, 'shards': 16},
 }
 
